@@ -17,7 +17,8 @@
  *            F (next_global; add) | T (next_global; add; remove) | R<g> (ref_node_remove of the vertex with global g) |
  *            W<g> (ref_node_remove_without_global of ...) | S (ref_node_synchronize_globals: every rank must have the
  *            same number of S; the events of different ranks between two S are independent)
- *       -> per rank `newN oldN nUnused T local:global ...` after the last event.
+ *       -> per rank the id state `newN oldN nUnused T local:global ... U unused...` before and after every S and after
+ *          the last event, joined by ` ## `.
  */
 #include "h_proto.h"
 #include <signal.h>
@@ -400,7 +401,7 @@ static int op_shufflin(void) {
 
 /* ------------------------------------------------------------------ idhist */
 static void put_ids(REF_NODE ref_node) {
-  REF_INT node;
+  REF_INT node, i;
   char b[64];
   r_ll(ref_node->new_n_global);
   r_ll(ref_node->old_n_global);
@@ -411,6 +412,8 @@ static void put_ids(REF_NODE ref_node) {
       snprintf(b, sizeof b, "%d:%lld", node, (long long)ref_node->global[node]);
       r_put(b);
     }
+  r_put("U");
+  for (i = 0; i < ref_node_n_unused(ref_node); i++) r_ll((long long)ref_node->unused_global[i]);
 }
 
 static int op_idhist(void) {
@@ -461,7 +464,13 @@ static int op_idhist(void) {
         if (REF_SUCCESS == st) st = ref_node_remove_without_global(ref_node, node);
         else st = REF_SUCCESS;
         break;
-      case 'S': st = ref_node_synchronize_globals(ref_node); break;
+      case 'S':
+        put_ids(ref_node);
+        r_put("##");
+        st = ref_node_synchronize_globals(ref_node);
+        put_ids(ref_node);
+        r_put("##");
+        break;
       default: break;
     }
     if (REF_SUCCESS != st) {
